@@ -110,12 +110,14 @@ def read_lines(path, lo, hi):
 def judge(ctx, trace, n, chunk=60000):
     """TLC loads a whole trace file in memory: long traces are split at history boundaries (every history starts with
     an init event, which re-initialises the specification) and the parts are judged in turn."""
-    if n <= chunk:
+    max_bytes = 48 << 20     # deep-trie histories have large dump events: bound the bytes of a part too
+    if n <= chunk and os.path.getsize(trace) <= max_bytes:
         return ctx.trace_judge("mpt", "MPTTrace.tla", "Trace_MPT.cfg", trace, timeout=3000)
     fails, part, base, k = [], [], 0, 0
+    nbytes = 0
 
     def flush_part():
-        nonlocal part, base, k
+        nonlocal part, base, k, nbytes
         if not part:
             return
         pp = os.path.join(ctx.work, "trace-part-%d.ndjson" % k)
@@ -128,14 +130,16 @@ def judge(ctx, trace, n, chunk=60000):
         base += len(part)
         part = []
         k += 1
+        nbytes = 0
 
     with open(trace) as f:
         for line in f:
             if not line.strip():
                 continue
-            if len(part) >= chunk and line.startswith('{"event":"init"'):
+            if (len(part) >= chunk or nbytes >= max_bytes) and line.startswith('{"event":"init"'):
                 flush_part()
             part.append(line)
+            nbytes += len(line)
     flush_part()
     return fails
 
